@@ -1,7 +1,7 @@
 (* C09 — Solution and insertion-cost comparisons obey order laws.
    This file contains only the property theorems, each closed by `exact`, pinned by `Check`,
    followed by Print Assumptions. *)
-From VRP Require Import Base.Tac Base.TotalCmp Model.CostOrder Proofs.CostOrderP.
+From VRP Require Import Base.Tac Base.TotalCmp Model.CostOrder Model.InsCost Model.GoalCtx Proofs.CostOrderP Proofs.InsCostP Proofs.GoalCtxP.
 
 (* any configured goal (single and dominance layers, any fitness vectors): reflexive, antisymmetric *)
 Theorem C09_goal_refl : forall ls f, goal_cmp ls f f = Eq.
@@ -46,3 +46,232 @@ Proof. exact icost_sub_add. Qed.
 Theorem C09_dominance_eq_not_transitive :
   exists a b c, multi_cmp a b = Eq /\ multi_cmp b c = Eq /\ multi_cmp a c = Lt.
 Proof. exact dominance_eq_not_transitive. Qed.
+
+(* ======================================================================================================================
+   Deepening (Model/InsCost.v: InsertionCost completely, f64 arithmetic = Coq.Floats.SpecFloat on bit patterns;
+   Model/GoalCtx.v: every way the code configures a goal and hands out a goal context, the pragmatic and scientific readers).
+   A solution is seen through its state vector s (getd s i = the fitness the i-th objective computes), a move through its
+   estimate vector e.
+   ====================================================================================================================== *)
+
+(* ---------- clause 1: any configured goal (single layers, `sum` and `weighted-sum` layers over any objectives) ---------- *)
+Theorem C09_gorder_refl : forall g s, gorder g s s = Eq.
+Proof. exact gorder_refl. Qed.
+Theorem C09_gorder_antisym : forall g sa sb, gorder g sa sb = CompOpp (gorder g sb sa).
+Proof. exact gorder_antisym. Qed.
+(* the comparator goal_reader.rs installs for `sum` and for `weighted-sum` is the same dominance order: the weights do not enter it *)
+Theorem C09_strategy_cmp_is_dominance : forall st fa fb, strategy_cmp st fa fb = dominance (map2 total_cmp fa fb).
+Proof. exact strategy_cmp_is_dominance. Qed.
+(* Goal::total_order depends on the solutions only through the fitness vector Goal::fitness reports, cut into the layers'
+   widths in layer order (a layer of n objectives contributes n consecutive components) *)
+Theorem C09_gorder_by_reported_fitness : forall g sa sb,
+  gorder g sa sb = goal_cmp (map lshape g) (gfitness g sa) (gfitness g sb).
+Proof. exact gorder_by_fitness. Qed.
+Theorem C09_gfitness_layer_order : forall l g s, gfitness (l :: g) s = map (ofit s) (lobjs l) ++ gfitness g s.
+Proof. exact gfitness_cons. Qed.
+
+(* ---------- clause 2: goals of single-objective layers = lexicographic comparison of the reported vector, total preorder ---------- *)
+Theorem C09_gorder_single_is_lex : forall g, gsingle_only g -> forall sa sb, Forall fbits_ok sa -> Forall fbits_ok sb ->
+  gorder g sa sb = lex_z (map zkey (gfitness g sa)) (map zkey (gfitness g sb)).
+Proof. exact gorder_single_is_lex. Qed.
+Theorem C09_gorder_single_trans : forall g, gsingle_only g -> forall c sa sb sc,
+  Forall fbits_ok sa -> Forall fbits_ok sb -> Forall fbits_ok sc ->
+  gorder g sa sb = c -> gorder g sb sc = c -> gorder g sa sc = c.
+Proof. exact gorder_single_trans. Qed.
+Theorem C09_gorder_single_eq_compat : forall g, gsingle_only g -> forall sa sb sc,
+  Forall fbits_ok sa -> Forall fbits_ok sb -> Forall fbits_ok sc ->
+  gorder g sa sb = Eq -> gorder g sa sc = gorder g sb sc.
+Proof. exact gorder_single_eq_compat. Qed.
+(* which goals consist of single layers: everything Goal::subset_of / Goal::simple / the built-in heuristic goal build *)
+Theorem C09_subset_goal_single : forall fs names g, goal_subset_of fs names = GOk g -> gsingle_only g /\ length g = length names.
+Proof. exact goal_subset_of_single. Qed.
+Theorem C09_default_ctx_single : forall fs b c, with_features fs = GOk b -> build b = GOk c -> ctx_single_only c.
+Proof. exact default_ctx_single. Qed.
+
+(* multi-objective layers: Pareto dominance is transitive on its strict part, a layer over one objective is plain total_cmp
+   (so it keeps -0.0 below +0.0, unlike add_single), and behind a layer of two objectives a goal can order three solutions in a cycle *)
+Theorem C09_multi_layer_lt_trans : forall a b c, length a = length b -> length b = length c ->
+  multi_cmp a b = Lt -> multi_cmp b c = Lt -> multi_cmp a c = Lt.
+Proof. exact multi_cmp_lt_trans. Qed.
+Theorem C09_multi_layer_of_one_is_total_cmp : forall st a b, strategy_cmp st [a] [b] = total_cmp a b.
+Proof. exact strategy_cmp_one. Qed.
+Theorem C09_multi_layer_of_one_separates_zeros_witness :
+  layer_cmp (GMulti SSum [OFeat 0]) [NEG_ZERO] [0] = Lt /\ layer_cmp (GSingle (OFeat 0)) [NEG_ZERO] [0] = Eq.
+Proof. exact multi_layer_of_one_objective_separates_zeros. Qed.
+Theorem C09_goal_with_multi_layer_cycle_witness :
+  let g := [GMulti SSum [OFeat 0; OFeat 1]; GSingle (OFeat 2)] in
+  let a := [1; 3; 2] in let b := [0; 5; 3] in let c := [0; 6; 1] in
+  gorder g a b = Lt /\ gorder g b c = Lt /\ gorder g c a = Lt.
+Proof. exact goal_with_multi_layer_cycle. Qed.
+
+(* ---------- goal contexts: the alternatives obey the same laws, each under ITS goal and ITS reported fitness ---------- *)
+Theorem C09_ctx_refl : forall c s, ctx_total_order c s s = Eq.
+Proof. exact ctx_total_order_refl. Qed.
+Theorem C09_ctx_antisym : forall c sa sb, ctx_total_order c sa sb = CompOpp (ctx_total_order c sb sa).
+Proof. exact ctx_total_order_antisym. Qed.
+(* Alternative::maybe_new: without a hit the context itself; with a hit the drawn alternative goal, the alternatives kept *)
+Theorem C09_maybe_new_no_hit : forall c d, maybe_new c false d = GOk c.
+Proof. exact maybe_new_no_hit. Qed.
+Theorem C09_maybe_new_hit : forall c d g, nth_error (calts c) d = Some g ->
+  maybe_new c true d = GOk {| cgoal := g; calts := calts c |}.
+Proof. exact maybe_new_hit. Qed.
+Theorem C09_follow_goal : forall p c c', follow c p = GOk c' ->
+  calts c' = calts c /\ (cgoal c' = cgoal c \/ In (cgoal c') (calts c)).
+Proof. exact follow_goal. Qed.
+Theorem C09_get_alternatives_nth : forall c i,
+  nth_error (get_alternatives c) i = match get_alternative c i with GOk c' => Some c' | GErr _ => None end.
+Proof. exact get_alternatives_nth. Qed.
+(* every context reachable through any sequence of maybe_new calls from a context whose goals consist of single layers is a total
+   preorder that coincides with the lexicographic comparison of the fitness vector THAT context reports *)
+Theorem C09_ctx_alternatives_lex : forall c p c', ctx_single_only c -> follow c p = GOk c' ->
+  forall sa sb, Forall fbits_ok sa -> Forall fbits_ok sb ->
+  ctx_total_order c' sa sb = lex_z (map zkey (ctx_fitness c' sa)) (map zkey (ctx_fitness c' sb)).
+Proof. exact ctx_follow_is_lex. Qed.
+Theorem C09_ctx_alternatives_trans : forall c p c', ctx_single_only c -> follow c p = GOk c' ->
+  forall o sa sb sc, Forall fbits_ok sa -> Forall fbits_ok sb -> Forall fbits_ok sc ->
+  ctx_total_order c' sa sb = o -> ctx_total_order c' sb sc = o -> ctx_total_order c' sa sc = o.
+Proof. exact ctx_follow_trans. Qed.
+
+(* the goal contexts of vrp-scientific (solomon / lilim: true, tsplib: false): their value, all goals of single layers *)
+Theorem C09_sci_goal_context :
+  sci_goal_context true = GOk {| cgoal := [GSingle (OFeat 0); GSingle (OFeat 1); GSingle (OFeat 2)];
+                                 calts := [[GSingle (OFeat 0); GSingle OKnownEdge; GSingle (OFeat 1); GSingle (OFeat 2)];
+                                           [GSingle (OFeat 0); GSingle (OFeat 2)]] |} /\
+  sci_goal_context false = GOk {| cgoal := [GSingle (OFeat 0); GSingle (OFeat 2)];
+                                  calts := [[GSingle (OFeat 0); GSingle OKnownEdge; GSingle (OFeat 1); GSingle (OFeat 2)];
+                                            [GSingle (OFeat 0); GSingle (OFeat 1); GSingle (OFeat 2)]] |}.
+Proof. exact sci_goal_context_value. Qed.
+Theorem C09_sci_goal_context_single : forall p, exists c, sci_goal_context p = GOk c /\ ctx_single_only c.
+Proof. exact sci_goal_context_single. Qed.
+
+(* the goal contexts of the pragmatic reader: the main context reports the objectives in document order (the identity on the
+   state vector), its alternatives consist of single layers, and without a multi-objective so does the main goal *)
+Theorem C09_reader_main_fitness : forall objs hv c, read_goal objs hv = GOk c ->
+  exists n, forall s, ctx_fitness c s = map (getd s) (seq 0 n).
+Proof. exact read_goal_main_fitness. Qed.
+Theorem C09_reader_alternatives_single : forall objs hv c, read_goal objs hv = GOk c -> Forall gsingle_only (calts c).
+Proof. exact read_goal_alternatives_single. Qed.
+Theorem C09_reader_plain_single : forall objs hv c,
+  Forall plain_objective (match objs with Some o => o | None => default_objectives hv end) ->
+  read_goal objs hv = GOk c -> ctx_single_only c.
+Proof. exact read_goal_plain_single. Qed.
+
+(* ---------- estimates (Goal::estimate): one component per layer ---------- *)
+Theorem C09_estimate_length : forall g e v, gestimate g e = Some v -> length v = length g.
+Proof. exact gestimate_length. Qed.
+Theorem C09_estimate_single_only : forall g e, gsingle_only g -> gestimate g e = Some (gfitness g e).
+Proof. exact gestimate_single_only. Qed.
+Theorem C09_reader_estimate_total : forall objs hv c, read_goal objs hv = GOk c ->
+  forall p c' e, follow c p = GOk c' -> ctx_estimate c' e <> None.
+Proof. exact read_goal_estimate_total. Qed.
+Theorem C09_estimate_sum_of_one : forall a, f64_ok a -> strategy_est SSum [a] = Some a.
+Proof. exact strategy_est_sum_one. Qed.
+Theorem C09_estimate_sum_of_none_witness : strategy_est SSum [] = Some NEG_ZERO /\ icost_cmp [NEG_ZERO] [] = Lt.
+Proof. exact strategy_est_sum_empty. Qed.
+Theorem C09_estimate_missing_weight_panics : forall ws es, (length ws < length es)%nat -> strategy_est (SWeightedSum ws) es = None.
+Proof. exact strategy_est_missing_weight. Qed.
+
+(* ---------- clause 3: InsertionCost — Eq / PartialEq / PartialOrd agree with Ord::cmp ---------- *)
+Theorem C09_icost_eq_iff_cmp : forall x y, ic_eq x y = true <-> icost_cmp x y = Eq.
+Proof. exact ic_eq_iff_cmp. Qed.
+Theorem C09_icost_eq_equivalence : forall x y z,
+  ic_eq x x = true /\ ic_eq x y = ic_eq y x /\ (ic_eq x y = true -> ic_eq y z = true -> ic_eq x z = true).
+Proof. exact ic_eq_equivalence. Qed.
+Theorem C09_icost_eq_congruence : forall x y z, ic_eq x y = true ->
+  icost_cmp x z = icost_cmp y z /\ icost_cmp z x = icost_cmp z y.
+Proof. exact ic_eq_cmp_compat. Qed.
+Theorem C09_icost_eq_iff_padded : forall x y, Forall fbits_ok x -> Forall fbits_ok y ->
+  (ic_eq x y = true <-> forall j, getd x j = getd y j).
+Proof. exact ic_eq_iff_padded. Qed.
+(* == on InsertionCost is equality of zero-padded BIT PATTERNS, not the == of f64: NaN == NaN, -0.0 != +0.0, [] == [+0.0], [] != [-0.0] *)
+Theorem C09_icost_eq_not_ieee_witness :
+  ic_eq [NAN_BITS] [NAN_BITS] = true /\ ic_eq [NEG_ZERO] [0] = false /\ ic_eq [] [0] = true /\ ic_eq [] [NEG_ZERO] = false.
+Proof. exact ic_eq_not_ieee. Qed.
+Theorem C09_icost_partial_cmp : forall x y, ic_partial_cmp x y = Some (icost_cmp x y).
+Proof. exact ic_partial_cmp_total. Qed.
+Theorem C09_icost_operators : forall x y,
+  (ic_lt x y = true <-> icost_cmp x y = Lt) /\ (ic_le x y = true <-> icost_cmp x y <> Gt) /\
+  (ic_gt x y = true <-> icost_cmp x y = Gt) /\ (ic_ge x y = true <-> icost_cmp x y <> Lt) /\
+  ic_gt x y = ic_lt y x /\ ic_ge x y = ic_le y x /\ ic_le x y = ic_lt x y || ic_eq x y.
+Proof. exact ic_operators. Qed.
+Theorem C09_icost_trichotomy : forall x y,
+  (ic_lt x y = true /\ ic_eq x y = false /\ ic_gt x y = false) \/
+  (ic_lt x y = false /\ ic_eq x y = true /\ ic_gt x y = false) \/
+  (ic_lt x y = false /\ ic_eq x y = false /\ ic_gt x y = true).
+Proof. exact ic_trichotomy. Qed.
+Theorem C09_icost_le_order : forall x y z,
+  (ic_le x y = true -> ic_le y z = true -> ic_le x z = true) /\ (ic_le x y = true -> ic_le y x = true -> ic_eq x y = true) /\
+  (ic_le x y = true \/ ic_le y x = true).
+Proof. exact ic_le_order. Qed.
+Theorem C09_icost_index : forall x i,
+  ((i < length x)%nat -> ic_index x i = Some (getd x i)) /\ ((length x <= i)%nat -> ic_index x i = None).
+Proof. exact ic_index_spec. Qed.
+
+(* max_value = [f64::MAX] is above every cost whose first component is below f64::MAX in the total order (every double except
+   f64::MAX, +inf and the NaNs with a clear sign bit) — and only those: it is not a top element *)
+Theorem C09_icost_max_value_above : forall x, key (getd x 0) < key F64_MAX -> icost_cmp x ic_max_value = Lt.
+Proof. exact ic_max_value_above. Qed.
+Theorem C09_icost_below_max_patterns : forall b, fbits_ok b -> (key b < key F64_MAX <-> b < F64_MAX \/ two63 <= b).
+Proof. exact key_below_max. Qed.
+Theorem C09_icost_max_value_not_top_witness :
+  icost_cmp [POS_INF] ic_max_value = Gt /\ icost_cmp [NAN_BITS] ic_max_value = Gt /\
+  icost_cmp [F64_MAX; 1] ic_max_value = Gt /\ select_cost [POS_INF] ic_max_value = false.
+Proof. exact ic_max_value_not_top. Qed.
+Theorem C09_icost_default_is_zeros : forall k, icost_cmp ic_default (repeat 0 k) = Eq.
+Proof. exact ic_default_is_zeros. Qed.
+
+(* ---------- clause 4: + and - ---------- *)
+(* structure, for whatever the component operation does: as long as the longer operand, componentwise, missing = +0.0;
+   the index loop of the code is the padded zip of Model/CostOrder.v (so C09_icost_add_sub / _sub_add above speak about it) *)
+Theorem C09_icost_zip_structure : forall op x y,
+  length (ic_zip op x y) = Nat.max (length x) (length y) /\
+  (forall j, (j < Nat.max (length x) (length y))%nat -> getd (ic_zip op x y) j = op (getd x j) (getd y j)) /\
+  ic_zip op x y = zip_pad op x y.
+Proof. exact ic_zip_structure. Qed.
+(* f64 level (SpecFloat binary64 on the bit patterns): Default is neutral — x - default is x bit for bit, x + default and
+   default + x are x up to the sign of zero — for every NaN-free cost *)
+Theorem C09_icost_sub_default : forall x, Forall f64_ok x -> ic_sub x ic_default = x.
+Proof. exact ic_sub_default. Qed.
+Theorem C09_icost_add_default : forall x, Forall f64_ok x ->
+  ic_add x ic_default = map (fun b => if b =? NEG_ZERO then 0 else b) x /\ icost_zcmp (ic_add x ic_default) x = Eq /\
+  icost_zcmp (ic_add ic_default x) x = Eq.
+Proof. exact ic_add_default. Qed.
+(* f64 level: + and - are inverse up to the sign of zero wherever the two component operations are (a decidable condition on the
+   pairs of components; it holds on integer-valued components below 2^52: validated on every run, C09_nonvacuous_inv_ok) ... *)
+Theorem C09_icost_add_sub_f64_partial : forall x y,
+  (forall j, (j < Nat.max (length x) (length y))%nat -> inv_ok (getd x j) (getd y j) = true) ->
+  icost_zcmp (ic_sub (ic_add x y) y) x = Eq /\ icost_zcmp (ic_add (ic_sub x y) y) x = Eq.
+Proof. exact ic_add_sub_f64. Qed.
+(* ... and not for all doubles: absorption, overflow, inf - inf (IEEE-754 arithmetic itself; DESIGN.md C09 restricts the clause) *)
+Theorem C09_icost_add_sub_all_doubles_refuted :
+  icost_zcmp (ic_sub (ic_add [4607182418800017408] [F64_MAX]) [F64_MAX]) [4607182418800017408] = Lt /\
+  ic_sub (ic_add [F64_MAX] [F64_MAX]) [F64_MAX] = [POS_INF] /\
+  ic_sub (ic_add [0] [POS_INF]) [POS_INF] = [NAN_BITS].
+Proof. exact ic_add_sub_f64_absorption. Qed.
+Theorem C09_nonvacuous_inv_ok :
+  inv_ok (f64_of_int 3) (f64_of_int (-7)) = true /\ inv_ok NEG_ZERO (f64_of_int 5) = true /\
+  inv_ok (f64_of_int 4503599627370495) (f64_of_int 4503599627370496) = true /\ inv_ok 4607182418800017408 F64_MAX = false.
+Proof. exact inv_ok_examples. Qed.
+
+(* ---------- comparisons of insertion results that rely on the order ---------- *)
+Theorem C09_select_cost_iff : forall l r, select_cost l r = true <-> icost_cmp l r = Lt.
+Proof. exact select_cost_iff. Qed.
+(* folding choose_best_result over candidates keeps the leftmost cheapest success: everything offered before it is strictly
+   dearer (or a failure), nothing offered after it is strictly cheaper; no success offered -> a failure *)
+Theorem C09_choose_best_leftmost_min : forall init rs,
+  existsb is_success (init :: rs) = true ->
+  exists l1 l2, init :: rs = l1 ++ choose_all init rs :: l2 /\ is_success (choose_all init rs) = true /\
+    (forall r, In r l1 -> is_success r = true -> icost_cmp (cost_of r) (cost_of (choose_all init rs)) = Gt) /\
+    (forall r, In r l2 -> is_success r = true -> icost_cmp (cost_of (choose_all init rs)) (cost_of r) <> Gt).
+Proof. exact choose_all_leftmost_min. Qed.
+Theorem C09_choose_best_no_success : forall init rs,
+  existsb is_success (init :: rs) = false -> is_success (choose_all init rs) = false.
+Proof. exact choose_all_no_success. Qed.
+
+(* non-vacuity of the hypotheses used above *)
+Theorem C09_nonvacuous_contexts :
+  (exists c, read_goal None true = GOk c /\ ctx_single_only c) /\
+  (exists c c', read_goal (Some [PMulti (SWeightedSum [1; 2]) [IObj 0; IObj 3]; PObj 6]) false = GOk c /\
+                follow c [(true, 0%nat)] = GOk c' /\ cgoal c' <> cgoal c) /\
+  (exists g, gsingle_only g /\ g <> []) /\ Forall f64_ok [0; NEG_ZERO; F64_MAX; POS_INF; 1].
+Proof. exact nonvacuous_contexts. Qed.
